@@ -331,31 +331,48 @@ def case_cum(ctx, inp):
     ctx.branch(method)
 
 
+def _joint_item(da, x, shape, it):
+    f = it["fn"]
+    if f == "filled":
+        return da.ma.filled(x, it["v"])
+    if f in ("masked_greater", "masked_less", "masked_equal", "masked_not_equal"):
+        return getattr(da.ma, f)(x, it["v"])
+    if f in ("masked_inside", "masked_outside"):
+        return getattr(da.ma, f)(x, it["v"], it["w"])
+    if f == "masked_where":
+        return da.ma.masked_where(da.from_array(np.array(it["cond"], dtype=bool).reshape(shape), chunks=x.chunks), x)
+    if f == "count":
+        return da.ma.count(x, axis=it["axis"])
+    return getattr(da, f)(x, axis=it["axis"], keepdims=it.get("keepdims", False))
+
+
 def case_joint(ctx, inp):
-    """several different masked operations on the SAME array computed in one graph keep their own results"""
+    """several masked operations computed in ONE graph keep their own results: different operations on the same
+    array, the same operations on an array with the same data but the complementary mask, on other data with the same
+    mask, and on the same masked array chunked as one block"""
     da = _da()
     a = dec_ma(inp["a"])
-    x = da.from_array(a, chunks=tuple(tuple(c) for c in inp["chunks"]))
-    arrs = []
-    for it in inp["items"]:
-        f = it["fn"]
-        if f == "filled":
-            arrs.append(da.ma.filled(x, it["v"]))
-        elif f in ("masked_greater", "masked_less", "masked_equal", "masked_not_equal"):
-            arrs.append(getattr(da.ma, f)(x, it["v"]))
-        elif f in ("masked_inside", "masked_outside"):
-            arrs.append(getattr(da.ma, f)(x, it["v"], it["w"]))
-        elif f == "masked_where":
-            arrs.append(da.ma.masked_where(da.from_array(np.array(it["cond"], dtype=bool).reshape(a.shape), chunks=x.chunks), x))
-        elif f == "count":
-            arrs.append(da.ma.count(x, axis=it["axis"]))
-        else:
-            arrs.append(getattr(da, f)(x, axis=it["axis"], keepdims=it.get("keepdims", False)))
+    chunks = tuple(tuple(c) for c in inp["chunks"])
+    x = da.from_array(a, chunks=chunks)
+    srcs = [("x", x)]
+    if np.ma.isMaskedArray(a) and a.size:
+        mk = np.ma.getmaskarray(a)
+        srcs.append(("complementary mask", da.from_array(np.ma.masked_array(np.ma.getdata(a), mask=~mk), chunks=chunks)))
+        srcs.append(("other data", da.from_array(np.ma.masked_array(np.ma.getdata(a)[(slice(None, None, -1),) * a.ndim] + 1, mask=mk), chunks=chunks)))
+        srcs.append(("one block", da.from_array(a, chunks=a.shape)))
+    arrs, labels = [], []
+    for nm, src in srcs:
+        for it in inp["items"]:
+            arrs.append(_joint_item(da, src, a.shape, it))
+            labels.append((nm, it))
     bad = U.joint_vs_solo(arrs)
     for i in bad:
         ctx.fail("a masked operation computed together with others differs from the same operation computed alone",
-                 observed={"item": inp["items"][i], "name": arrs[i].name})
-    ctx.branch(f"joint×{len(arrs)}")
+                 observed={"item": labels[i], "name": arrs[i].name,
+                           "same_name_as": [labels[j] for j, y in enumerate(arrs) if j != i and y.name == arrs[i].name]})
+    if len(srcs) > 1:
+        ctx.branch("variants")
+    ctx.branch(f"joint×{len(inp['items'])}")
 
 
 CASES = {"joint": case_joint, "construct": case_construct, "elemwise": case_elemwise, "reduce": case_reduce, "fn": case_fn, "cum": case_cum}
